@@ -32,6 +32,29 @@ type Scn struct {
 	Opts  []func(*loader.Options)
 	// InMem: pass the main files' content in memory instead of by file name only
 	InMem bool
+	// RelNames: (with InMem) name the main files relative to the working directory, as callers holding the content may
+	RelNames bool
+}
+
+// RootToken in an Env value stands for the scenario's root directory.
+const RootToken = "<<ROOT>>"
+
+// UnboundedRecursion is the panic value of the guard every load carries: more include/extends events than any
+// scenario of this harness can legitimately produce means the loader is not terminating.
+const UnboundedRecursion = "verif: more than 5000 include/extends events in one load: unbounded recursion"
+
+func recursionGuard() func(*loader.Options) {
+	return func(o *loader.Options) {
+		n := 0
+		o.Listeners = append(o.Listeners, func(event string, _ map[string]any) {
+			if event == "include" || event == "extends" {
+				n++
+				if n > 5000 {
+					panic(UnboundedRecursion)
+				}
+			}
+		})
+	}
 }
 
 var scratchOnce sync.Once
@@ -73,22 +96,36 @@ func (s *Scn) MaterialiseAt(root string) {
 			os.MkdirAll(full, 0o755)
 			continue
 		}
+		if strings.HasPrefix(c, SymlinkTo) {
+			// a symbolic link: the target is relative to the link's directory unless absolute
+			os.Remove(full)
+			os.Symlink(strings.TrimPrefix(c, SymlinkTo), full)
+			continue
+		}
 		os.WriteFile(full, []byte(c), 0o644)
 	}
 }
+
+// SymlinkTo marks a Files entry as a symbolic link to the path that follows the marker.
+const SymlinkTo = "\x00symlink:"
 
 // Details builds the ConfigDetails of the scenario rooted at root.
 func (s *Scn) Details(root string) types.ConfigDetails {
 	wd := filepath.Join(root, s.WD)
 	env := map[string]string{}
 	for k, v := range s.Env {
-		env[k] = v
+		env[k] = strings.ReplaceAll(v, RootToken, root)
 	}
 	cd := types.ConfigDetails{WorkingDir: wd, Environment: env}
 	for _, m := range s.Main {
 		cf := types.ConfigFile{Filename: filepath.Join(root, m)}
 		if s.InMem {
 			cf.Content = []byte(s.Files[m])
+			if s.RelNames {
+				if rel, err := filepath.Rel(wd, cf.Filename); err == nil {
+					cf.Filename = rel
+				}
+			}
 		}
 		cd.ConfigFiles = append(cd.ConfigFiles, cf)
 	}
@@ -98,7 +135,7 @@ func (s *Scn) Details(root string) types.ConfigDetails {
 // LoadDetails loads with a ConfigDetails value supplied by the caller (possibly shared with other loads).
 // imperativeName: set the project name through the option, as LoadAt does; otherwise the loader derives it.
 func (s *Scn) LoadDetails(cd types.ConfigDetails, imperativeName bool) (p *types.Project, err error) {
-	opts := append([]func(*loader.Options){}, s.Opts...)
+	opts := append([]func(*loader.Options){recursionGuard()}, s.Opts...)
 	if imperativeName {
 		opts = append([]func(*loader.Options){func(o *loader.Options) { o.SetProjectName("proj", true) }}, opts...)
 	}
@@ -115,7 +152,7 @@ func (s *Scn) LoadDetails(cd types.ConfigDetails, imperativeName bool) (p *types
 // LoadAt loads the scenario materialised at root. Panics become *core.PanicError.
 func (s *Scn) LoadAt(root string) (p *types.Project, err error) {
 	cd := s.Details(root)
-	opts := append([]func(*loader.Options){}, s.Opts...)
+	opts := append([]func(*loader.Options){recursionGuard()}, s.Opts...)
 	name := s.Name
 	if name == "" {
 		name = "proj"
